@@ -174,6 +174,57 @@ def _worker(args):
     return agg
 
 
+_dyn = {}
+
+
+def _dyn_init(pid):
+    signal.signal(signal.SIGVTALRM, _on_timer)
+    _dyn['driver'] = load_driver(pid)
+
+
+def _dyn_case(args):
+    """one case per task (dynamic load balancing for few, heavy cases)"""
+    i, case = args
+    driver = _dyn['driver']
+    agg = {
+        'evaluations': 0, 'cases': 0, 'nontrivial': 0,
+        'distinct': set(), 'distinct_overflow': 0,
+        'outcomes': collections.Counter(),
+        'counters': collections.Counter(),
+        'violations': [], 'viol_counts': collections.Counter(),
+        'states': 0, 'transitions': 0, 'traces': 0,
+        'samples': [], 'fault': None,
+    }
+    try:
+        res = run_one(driver, case)
+        agg['cases'] = 1
+        agg['evaluations'] = res.evals
+        agg['outcomes'][res.outcome] += 1
+        agg['counters'].update(res.counters)
+        agg['states'], agg['transitions'], agg['traces'] = \
+            res.states, res.transitions, res.traces
+        if res.nt_count is not None:
+            agg['nontrivial'] = res.nt_count
+            agg['distinct_overflow'] = res.nt_count
+            if res.nt_count:
+                agg['samples'].append(res.sample if res.sample is not None
+                                      else case)
+        elif res.nontrivial:
+            agg['nontrivial'] = 1
+            agg['distinct'].add(_hash64(case_key(case)))
+            agg['samples'].append(case)
+        for v in res.violations:
+            agg['viol_counts'][v['sig']] += 1
+            if agg['viol_counts'][v['sig']] <= MAX_VIOL_PER_SIG_PER_WORKER:
+                if v.get('case') is None:
+                    v['case'] = case
+                v['index'] = i
+                agg['violations'].append(v)
+    except Exception:
+        agg['fault'] = traceback.format_exc()
+    return agg
+
+
 def merge(aggs):
     out = {
         'evaluations': 0, 'cases': 0, 'nontrivial': 0,
@@ -257,7 +308,15 @@ def check(pid, tier='quick', jobs=None, seed=0):
         jobs = 1
     ctx = multiprocessing.get_context('fork')
     args = [(pid, tier, s, jobs, seed) for s in range(jobs)]
-    if jobs == 1:
+    if getattr(driver, 'DYNAMIC', False) and jobs > 1:
+        # heaviest-first is not known; shuffle deterministically by seed so
+        # that neighbouring (similar) cases do not queue on one worker
+        todo = list(enumerate(driver.cases(tier)))
+        todo = todo[seed % max(len(todo), 1):] + \
+            todo[:seed % max(len(todo), 1)]
+        with ctx.Pool(jobs, initializer=_dyn_init, initargs=(pid,)) as pool:
+            aggs = list(pool.imap_unordered(_dyn_case, todo, chunksize=1))
+    elif jobs == 1:
         aggs = [_worker(args[0])]
     else:
         with ctx.Pool(jobs) as pool:
